@@ -115,4 +115,24 @@ def mergeTexts : List Seg → List Seg
   | [] => []
 termination_by l => l.length
 
+/-- "Jinja normalises line breaks": `\r\n`, `\r` and `\n` are the line breaks of a template (docs/api.rst,
+    `newline_sequence`; lexer.py `newline_re`); the whitespace rules speak about line breaks, so they apply to CRLF and
+    lone-CR sources as they do to `\n` sources. A `\r` that ends one text and a `\n` that starts the text after a
+    tag are two line breaks. -/
+def normNl : Str → Str
+  | [] => []
+  | '\r' :: '\n' :: r => '\n' :: normNl r
+  | '\r' :: r => '\n' :: normNl r
+  | c :: r => c :: normNl r
+
+def normSeg : Seg → Seg
+  | .text s => .text (normNl s)
+  | .tag k l r i => .tag k l r (normNl i)
+  | .raw l1 m body l2 r2 => .raw l1 m (normNl body) l2 r2
+
+/-- the documented result for a skeleton with any of the three line breaks (texts merged first, so that a `\r\n`
+    whose halves lie in two adjacent text segments is one line break) -/
+def documented (cfg : Cfg) (segs : List Seg) : List Piece :=
+  trimSpec cfg ((mergeTexts segs).map normSeg) .nothing true
+
 end JinjaV.Trim
